@@ -178,11 +178,17 @@ def walk_exec(chk, repo):
     by_code = {m.value: m for m in mem.values()}
     bad = []
     rows = 0
-    for s0 in (1, 2, 4, 8):
-        for err0 in (False, True):
-            for tgt in (2, 4, 8):
-                for delay in (0, 2):
-                    for refuse in ((), (4,), (8,)):
+    grid = [(s0, err0, tgt, delay, refuse) for s0 in (1, 2, 4, 8)
+            for err0 in (False, True) for tgt in (2, 4, 8)
+            for delay in (0, 2) for refuse in ((), (4,), (8,))]
+    # a terminal that takes very long for every step (no bound on the
+    # number of polls is part of the walk)
+    grid += [(1, False, 8, 1500, ()), (2, True, 4, 1500, ())]
+    if True:
+        if True:
+            if True:
+                if True:
+                    for s0, err0, tgt, delay, refuse in grid:
                         rows += 1
                         dev = _ESM(s0, err0, delay, refuse)
                         me = Obj(tci, {"position": 7, "ec": Obj(None, {
